@@ -245,12 +245,7 @@ impl GenerationPass for AvailableValuePass {
                     &mut out_reg_n,
                     &node.memory_values_out(),
                 );
-                rule_zero_to_const(
-                    &mut out_reg_n,
-                    &node.reg_values_in(),
-                    &mut out_memory_n,
-                    &node.memory_values_in(),
-                );
+                rule_zero_to_const(&mut out_reg_n, &mut out_memory_n);
                 rule_perform_math_ops(&node.node(), &mut out_reg_n, &node.reg_values_in());
                 rule_push_value_to_csr_memory(&node.node(), &mut out_memory_n, &out_reg_n);
                 rule_known_values_to_stack(&mut out_memory_n, &node.reg_values_in());
@@ -335,27 +330,28 @@ fn forget_overwritten_stack_slots(
 /// with the zero register.
 fn rule_zero_to_const(
     available_out: &mut AvailableValueMap<Register>,
-    available_in: &AvailableValueMap<Register>,
     memory_out: &mut AvailableValueMap<MemoryLocation>,
-    memory_in: &AvailableValueMap<MemoryLocation>,
 ) {
-    for (reg, val) in available_in {
+    // Only values that are still valid after this node are rewritten: taking
+    // them from the in-maps would bring back a value that the node has just
+    // overwritten or invalidated.
+    for (reg, val) in available_out.clone() {
         match val {
             AvailableValue::OriginalRegisterWithScalar(r, i)
             | AvailableValue::RegisterWithScalar(r, i) => {
                 if r.is_const_zero() {
-                    available_out.insert(*reg, AvailableValue::Constant(*i));
+                    available_out.insert(reg, AvailableValue::Constant(i));
                 }
             }
             _ => {}
         }
     }
-    for (mem_loc, val) in memory_in {
+    for (mem_loc, val) in memory_out.clone() {
         match val {
             AvailableValue::OriginalRegisterWithScalar(r, i)
             | AvailableValue::RegisterWithScalar(r, i) => {
                 if r.is_const_zero() {
-                    memory_out.insert(mem_loc.clone(), AvailableValue::Constant(*i));
+                    memory_out.insert(mem_loc, AvailableValue::Constant(i));
                 }
             }
             _ => {}
